@@ -52,7 +52,10 @@ THEOREMS = {
 RULE = ("case = (op in {fidelity, KL, NLL}, state kind in {pos, cplx, dens}, n<=3 (4 thorough), h, a, parameters = scale*N(0,1) with all "
         "biases non-zero, target class in {random complex normalised, own state, e^{i alpha} x own/random, real, basis state, "
         "random/pure/own density matrix}, bases in {None, list over {X,Y,Z}^n, dict target vs single target}, sample multisets with "
-        "per-sample bases incl. all-Z rows and duplicates); non-trivial iff some bias != 0 and (target not real or a basis has a Y or "
+        "per-sample bases incl. all-Z rows and duplicates; optional PRELUDE = the caller obtained generate_hilbert_space() from a state of that "
+        "size and modified the returned tensor in place (flip_spin, chain buffer, edits, numpy view) before the metric is evaluated "
+        "with space=None on the same or another state object; and/or the state object first held other parameters, was evaluated, and was "
+        "re-parametrised in place); non-trivial iff some bias != 0 and (target not real or a basis has a Y or "
         "X) ; malformed stream: empty bases, key mismatch, mask length mismatch, empty samples; distinct by hash of the case")
 
 EPS = float(torch.finfo(torch.float64).eps)
@@ -102,8 +105,9 @@ def gen_state(rng, kind, n, scale):
 
 
 def impl_state(st, s):
-    """normalised state of the implementation as numpy: (psi_hat or None, rho_hat, Z)"""
-    space = st.generate_hilbert_space()
+    """normalised state of the implementation as numpy: (psi_hat or None, rho_hat, Z); evaluated on an enumeration built HERE
+    (not by the library, whose enumeration is part of what is being checked)"""
+    space = torch.tensor(qc.all_states(s["n"]), dtype=torch.double).reshape(2 ** s["n"], s["n"])
     Z = float(st.normalization(space))
     if s["kind"] == "dens":
         r = st.rho(space, space).detach().numpy()
@@ -211,9 +215,9 @@ def nontrivial_state(s):
 
 
 # ---------------------------------------------------------------- fidelity
-def fidelity_case(ctx, case):
+def fidelity_case(ctx, case, st=None):
     s = case["state"]
-    st = make_state(s)
+    st = st if st is not None else make_state(s)
     psi_hat, rho_hat, Z = impl_state(st, s)
     tclass = case["tclass"]
     sig0 = f"fidelity/{s['kind']}/{tclass}"
@@ -305,9 +309,9 @@ def target_born(s, t, basis):
     return np.abs(U @ t) ** 2
 
 
-def kl_case(ctx, case):
+def kl_case(ctx, case, st=None):
     s = case["state"]
-    st = make_state(s)
+    st = st if st is not None else make_state(s)
     n = s["n"]
     psi_hat, rho_hat, Z = impl_state(st, s)
     tclass, form, bases = case["tclass"], case["form"], case["bases"]
@@ -367,9 +371,9 @@ def kl_case(ctx, case):
 
 
 # ---------------------------------------------------------------- NLL
-def nll_case(ctx, case):
+def nll_case(ctx, case, st=None):
     s = case["state"]
-    st = make_state(s)
+    st = st if st is not None else make_state(s)
     n = s["n"]
     psi_hat, rho_hat, Z = impl_state(st, s)
     samples, sb = case["samples"], case["sample_bases"]
@@ -482,6 +486,26 @@ def gen_cases(ctx, thorough):
                     yield {"op": "nll", "state": s, "samples": samples, "sample_bases": sb, "perm": perm}
                     yield {"op": "nll", "state": s, "samples": samples, "sample_bases": None, "perm": perm}
                 yield {"op": "nll", "state": s, "samples": [[rng.randrange(2) for _ in range(n)] for _ in range(3)], "sample_bases": ["Z" * n] * 3, "perm": [2, 0, 1]}
+                # ---------- the same metrics (space=None) after an enumeration handed out earlier was modified in place by the caller
+                def prelude():
+                    pre = {"how": rng.choice(PRELUDE_HOW), "seed": rng.randrange(1 << 30), "same_object": rng.random() < 0.5,
+                           "warm": rng.random() < 0.5, "twice": rng.random() < 0.3}
+                    if rng.random() < 0.5:
+                        s0 = gen_state(rng, kind, n, rng.choice([0.3, 1.0, 2.0]))
+                        while s0["h"] != s["h"] or s0.get("a") != s.get("a"):
+                            s0 = gen_state(rng, kind, n, rng.choice([0.3, 1.0, 2.0]))
+                        pre["reparam_from"] = s0
+                    return pre
+                for (tclass, t) in rng.sample(targets, 2):
+                    yield {"op": "fidelity", "state": s, "tclass": tclass, "target": cjson(t), "alpha": alpha, "prelude": prelude()}
+                    yield {"op": "kl", "state": s, "tclass": tclass, "target": cjson(t), "form": "once", "bases": None, "keys": None, "prelude": prelude()}
+                    bl = rng.sample(sel, min(len(sel), 2))
+                    yield {"op": "kl", "state": s, "tclass": tclass, "target": cjson(t), "form": "once", "bases": bl, "keys": None, "prelude": prelude()}
+                Ns = rng.choice([2, 5, 9])
+                samples = [[rng.randrange(2) for _ in range(n)] for _ in range(Ns)]
+                yield {"op": "nll", "state": s, "samples": samples, "sample_bases": None, "perm": None, "prelude": prelude()}
+                yield {"op": "nll", "state": s, "samples": samples, "sample_bases": [rng.choice(sel[:2] + ["Z" * n]) for _ in range(Ns)], "perm": None,
+                       "prelude": prelude()}
         # ---------- clamp probes (large parameters: probabilities below eps) and malformed stream, once per n
         for kind in ("pos", "cplx", "dens"):
             s = gen_state(rng, kind, n, 12.0)
@@ -500,8 +524,53 @@ def gen_cases(ctx, thorough):
             yield {"op": "nll", "state": s, "samples": [], "sample_bases": None, "perm": None, "malformed": True}
 
 
+PRELUDE_HOW = ("flip_spin", "sample_overwrite", "edit", "zero_", "fill_", "complement", "numpy_view", "copy_")
+
+
+def run_prelude(ctx, case):
+    """history before the metric call: the caller obtains the enumeration of the Hilbert space from a state (of the case's size),
+    optionally evaluates a metric with space=None once, and then modifies the tensor it was given IN PLACE (flip_spin, chain buffer
+    of sample(overwrite=True), direct edits, ...).  The metric of the case is then evaluated with space=None on that same state
+    object or on another state object of the same size, and compared with the model as usual.  -> state object to use (or None)"""
+    from .c19 import mutate_in_place
+
+    pre = case["prelude"]
+    s = case["state"]
+    if pre.get("reparam_from"):
+        # the state object first holds OTHER parameters, every metric is evaluated on it, then it is re-parametrised IN PLACE
+        # (training between two evaluations) to the parameters of the case
+        s0 = pre["reparam_from"]
+        st = make_state(s0)
+        ctx.count("prelude:reparametrised_in_place")
+        N = 2 ** s["n"]
+        t = np.zeros(N, dtype=complex); t[N - 1] = 1.0
+        tt = cvec_t(np.outer(t, t) if s["kind"] == "dens" else t)
+        call(lambda: ts.fidelity(st, tt)); call(lambda: ts.KL(st, tt)); call(lambda: ts.KL(st, tt, bases=["X" * s["n"]]))
+        call(lambda: ts.NLL(st, torch.tensor(qc.all_states(s["n"]), dtype=torch.double).reshape(N, s["n"])))
+        if s["kind"] == "dens":
+            qc.set_prbm(st.rbm_am, s["am"], inplace=True); qc.set_prbm(st.rbm_ph, s["ph"], inplace=True)
+        else:
+            qc.set_rbm(st.rbm_am, s["am"], inplace=True)
+            if s["kind"] == "cplx":
+                qc.set_rbm(st.rbm_ph, s["ph"], inplace=True)
+    else:
+        st = make_state(s)
+    ctx.count("prelude"); ctx.count(f"prelude:how={pre['how']}"); ctx.count("prelude:same_state_object" if pre["same_object"] else "prelude:other_state_object")
+    if pre.get("warm"):
+        N = 2 ** s["n"]
+        t = np.zeros(N, dtype=complex); t[0] = 1.0
+        call(lambda: ts.fidelity(st, cvec_t(np.outer(t, t) if s["kind"] == "dens" else t)))
+    sp = st.generate_hilbert_space()
+    mutate_in_place(st, sp, pre["how"], pre["seed"])
+    if pre.get("twice"):
+        sp2 = st.generate_hilbert_space(s["n"])
+        mutate_in_place(st, sp2, PRELUDE_HOW[(PRELUDE_HOW.index(pre["how"]) + 3) % len(PRELUDE_HOW)], pre["seed"] + 1)
+    return st if (pre["same_object"] or pre.get("reparam_from")) else None
+
+
 def dispatch(ctx, case):
-    {"fidelity": fidelity_case, "kl": kl_case, "nll": nll_case}[case["op"]](ctx, case)
+    st = run_prelude(ctx, case) if case.get("prelude") else None
+    {"fidelity": fidelity_case, "kl": kl_case, "nll": nll_case}[case["op"]](ctx, case, st=st)
 
 
 def run(ctx):
